@@ -218,6 +218,9 @@ def canon_components(v, conds, py: PyRepo):
     def go(x):
         if not isinstance(x, tuple) or not x:
             return x
+        if x[0] == 'sub' and x[2][0] == 'const' and isinstance(x[2][1], int) and x[2][1] >= 0 and x[1][0] == 'call' and x[1][1][0] == 'attr' \
+                and x[1][1][2] in ('extract', 'unwrap'):
+            x = ('item', x[1], x[2][1])              # `parts[0]` and `a, b = parts` name the same component
         if x[0] == 'item' and isinstance(x[2], int) and x[1][0] == 'call' and x[1][1][0] == 'attr' and x[1][1][2] in ('extract', 'unwrap') \
                 and x[1][1][1][0] == 'name' and len(x[1][2]) == 1:
             ctor = x[1][1][1][1]
